@@ -4,6 +4,7 @@ CONSTANTS
   MaxLive = 3
   HeaderRows <- HR2
   Lean = FALSE
+  Ext = FALSE
 INVARIANT OnlyPitchesMove
 INVARIANT RoundTripOnModel
 INVARIANT UnisonIsIdentity
